@@ -309,16 +309,30 @@ def run(ctx):
         for c in f.calls():
             if (callee_name(c) or "").startswith("std::make_shared") and (c.get("callee") or {}).get("targs", [""])[0] == NS + "Packet" and len(c.get("args", [])) == 3:
                 n_sites += 1
-                fs = MustFacts(f).at(c)
-                want = "ASAM::CMP::Packet::isValidPacket(%s, %s)" % (canon(strip_all_casts(c["args"][1])), canon(strip_all_casts(c["args"][2])))
-                ok = any(a[0] == "truth" and a[2] is True and a[1] == want for a in fs)
+
+                def guarded(fn, site, pa, sa, depth=0):
+                    fs = MustFacts(fn).at(site)
+                    want = "ASAM::CMP::Packet::isValidPacket(%s, %s)" % (canon(strip_all_casts(pa)), canon(strip_all_casts(sa)))
+                    if any(a[0] == "truth" and a[2] is True and a[1] == want for a in fs):
+                        return True
+                    # (pointer, size) parameters passed on unchanged: the obligation moves to every call site
+                    pd = [p["decl"] for p in fn.params]
+                    x, y = strip_all_casts(pa), strip_all_casts(sa)
+                    if depth < 2 and x.get("decl") in pd and y.get("decl") in pd and x.get("dk") == "param" and y.get("dk") == "param" and \
+                            not any(d in (x["decl"], y["decl"]) for d, _, _ in facts.writes_of(fn)):
+                        sites = [(cf, facts.effective_call(cn)) for cf in fb.all_functions() for cn in cf.nodes()
+                                 if cn.get("k") == "call" and (fb.resolve_call(cn) is fn)]
+                        return bool(sites) and all(len(cn.get("args", [])) > max(pd.index(x["decl"]), pd.index(y["decl"])) and
+                                                   guarded(cf, cn, cn["args"][pd.index(x["decl"])], cn["args"][pd.index(y["decl"])], depth + 1) for cf, cn in sites)
+                    return False
+                ok = guarded(f, c, c["args"][1], c["args"][2])
                 why = "guarded by isValidPacket on the same pointer and size"
                 if not ok and f.name == D.SEG + "::getPacket":
                     # reassembly buffer: header length is maintained by the owner after every growth
                     spl = [x for x in m.addSegment.calls(NS + "MessageHeader::setPayloadLength")]
                     cfg = m.addSegment.cfg
-                    rs = [x for x in m.addSegment.calls("std::vector::resize") if strip_all_casts(x.get("obj", {})).get("field") == m.buffer]
-                    ok = len(spl) == 1 and len(rs) == 1 and cfg.block_for(spl[0]) == cfg.block_for(rs[0]) and cfg.pos_of[spl[0]["id"]] > cfg.pos_of[rs[0]["id"]] and \
+                    rs = [x for _, kind, x, _ in facts.vector_sizing(m.addSegment, m.buffer)]
+                    ok = len(spl) == 1 and len(rs) >= 1 and all(cfg.block_for(spl[0]) == cfg.block_for(r) and cfg.pos_of[spl[0]["id"]] > cfg.pos_of[r["id"]] for r in rs) and \
                         m.buffer in depends(m.addSegment, spl[0]["args"][0])[0] and any(x.get("k") == "sizeof" and x.get("ofrec") == NS + "MessageHeader" for x in walk(spl[0]["args"][0]))
                     why = "reassembly buffer: its header's payload length is rewritten to size() - 16 after every growth"
                 res.check(ok, "C03-R4", "Packet-from-bytes:%s" % f.name.split("::")[-1], c.get("loc"), why,
